@@ -789,6 +789,7 @@ func c11Run(c *lib.Ctx) {
 			return
 		}
 		c.Count("explorer_selftest_passed", 1)
+		c11ChanSelfTest(c)
 	}
 	w := newC11World(c)
 	scs := c11Scenarios()
